@@ -216,3 +216,35 @@ def boundary_nodes(mesh):
     for g in mesh.Get_list_groupElem(mesh.dim - 1):
         out |= set(np.asarray(g.connect).ravel().tolist())
     return np.array(sorted(out), dtype=int)
+
+
+_SECTION = {}
+
+
+def beam_section(b=0.2, h=0.3):
+    from EasyFEA import Mesher
+    from EasyFEA.Geoms import Domain, Point
+
+    key = (b, h)
+    if key not in _SECTION:
+        _SECTION[key] = Mesher().Mesh_2D(Domain(Point(-b / 2, -h / 2), Point(b / 2, h / 2), min(b, h) / 2))
+    return _SECTION[key]
+
+
+def beam_simu(dim, elemType, p1, p2, ne=2, timoshenko=False, E=210.0, v=0.3, yAxis=None, section=None):
+    """A real Beam simulation on one straight member from p1 to p2 meshed with `ne` elements."""
+    from EasyFEA import Mesher, Models, Simulations, ElemType
+    from EasyFEA.Geoms import Point, Line
+
+    section = section or beam_section()
+    P1, P2 = Point(*p1), Point(*p2)
+    L = float(np.linalg.norm(np.asarray(p2, float) - np.asarray(p1, float)))
+    line = Line(P1, P2, L / ne)
+    kw = {}
+    if yAxis is not None:
+        kw["yAxis"] = yAxis
+    beam = Models.Beam.Isotropic(dim, line, section, E, v, **kw)
+    mesh = Mesher().Mesh_Beams([beam], elemType=ElemType[elemType])
+    structure = Models.Beam.BeamStructure([beam])
+    simu = Simulations.Beam(mesh, structure, verbosity=False, useTimoshenko=timoshenko)
+    return simu, beam, L
